@@ -33,3 +33,47 @@ package scheduling
 //@   prop C01
 //@   modifies nothing
 //@   ensures [exact] (result == nil) <==> (forall a int {ts[a]} :: (0 <= a && a < len(ts)) ==> toleratedBy(pod.Spec.Tolerations, len(pod.Spec.Tolerations), &ts[a]))
+
+// ---- C01: host ports ----
+// Two host ports collide (Kubernetes NodePorts rule) iff they have the same protocol and port and their IPs overlap:
+// equal addresses, or one of them is the unspecified (wildcard) address 0.0.0.0 / ::.
+// net.IP.Equal / IsUnspecified are external: ipEq / ipUnspec stand for their answers (net.IP values are immutable
+// here: nothing in this package writes the bytes of an address). [pureEq]/[pureUnspec]: the two library calls write
+// nothing (all integer cells, which is where the bytes live, are as before; the contract language has no byte type).
+//@ pure ipEq(a net.IP, b net.IP) bool
+//@ pure ipUnspec(a net.IP) bool
+//@ pure hpMatches(p HostPort, q HostPort) bool = p.Protocol == q.Protocol && p.Port == q.Port && (ipEq(p.IP, q.IP) || ipUnspec(p.IP) || ipUnspec(q.IP))
+
+//@ func (HostPort).Matches
+//@   prop C01
+//@   modifies nothing
+//@   after (IP).Equal assume [eq] $r0 == ipEq($0, $1)
+//@   after (IP).IsUnspecified assume [unspec] $r0 == ipUnspec($0)
+//@   after (IP).Equal assume [pureEq] forall b *int64 {*b} :: *b == old(*b)
+//@   after (IP).IsUnspecified assume [pureUnspec] forall b *int64 {*b} :: *b == old(*b)
+//@   ensures [exact] result == hpMatches(p, rhs)
+
+// noClash(u, pod, p): host port p collides with no port recorded for a pod other than `pod`.
+//@ pure otherPod(k types.NamespacedName, pod *corev1.Pod) bool = !(k.Namespace == pod.Namespace && k.Name == pod.Name)
+//@ pure noClash(u *HostPortUsage, pod *corev1.Pod, p HostPort) bool = forall k types.NamespacedName {k in u.reserved} :: ((k in u.reserved) && otherPod(k, pod)) ==> (forall b int {u.reserved[k][b]} :: (0 <= b && b < len(u.reserved[k])) ==> !hpMatches(p, u.reserved[k][b]))
+
+// Conflicts: no error exactly when none of the given ports collides with a port recorded for another pod.
+//@ func (*HostPortUsage).Conflicts
+//@   prop C01
+//@   modifies nothing
+//@   ensures [exact] (result == nil) <==> (forall a int {ports[a]} :: (0 <= a && a < len(ports)) ==> noClash(u, usedBy, ports[a]))
+//@   loop 1 invariant [done] forall a int {ports[a]} :: (0 <= a && a <= $i) ==> noClash(u, usedBy, ports[a])
+//@   loop 2 invariant [done] forall a int {ports[a]} :: (0 <= a && a <= $i1) ==> noClash(u, usedBy, ports[a])
+//@   loop 2 invariant [keys] forall k types.NamespacedName {seen(k)} :: (seen(k) && otherPod(k, usedBy)) ==> (forall b int {u.reserved[k][b]} :: (0 <= b && b < len(u.reserved[k])) ==> !hpMatches(ports[$i1 + 1], u.reserved[k][b]))
+//@   loop 3 invariant [entries] otherPod(podKey, usedBy) ==> (forall b int {entries[b]} :: (0 <= b && b <= $i) ==> !hpMatches(ports[$i1 + 1], entries[b]))
+
+// Add records exactly the given ports for the pod (replacing what was recorded for it); DeletePod forgets one pod.
+//@ func (*HostPortUsage).Add
+//@   prop C01
+//@   modifies u.reserved[:]
+//@   ensures [recorded] forall k types.NamespacedName {k in u.reserved} {u.reserved[k]} :: (k.Namespace == usedBy.Namespace && k.Name == usedBy.Name) ? ((k in u.reserved) && u.reserved[k] == ports) : ((k in u.reserved) == old(k in u.reserved) && u.reserved[k] == old(u.reserved[k]))
+
+//@ func (*HostPortUsage).DeletePod
+//@   prop C01
+//@   modifies u.reserved[:]
+//@   ensures [forgotten] forall k types.NamespacedName {k in u.reserved} {u.reserved[k]} :: (k == key) ? !(k in u.reserved) : ((k in u.reserved) == old(k in u.reserved) && u.reserved[k] == old(u.reserved[k]))
